@@ -10,6 +10,8 @@ import LfsModel.Creds
 import LfsModel.Config
 import LfsModel.RedirectModel
 import LfsModel.Download
+import LfsModel.TQTrace
+import LfsModel.Backoff
 import LfsModel.Gen
 open Lfs
 
@@ -209,6 +211,49 @@ def c02 : List String → String
     | _, _, _, _ => "bad-op"
   | _ => "bad-op"
 
+def parseTW (w : String) : Option TQ.TW :=
+  match w.splitOn ":" with
+  | ["add", o] => o.toNat?.map .add
+  | ["take", o] => o.toNat?.map .take
+  | ["batch", os] => ((os.splitOn "+").mapM String.toNat?).map .batch
+  | ["retry", o, c] => do let o ← o.toNat?; let c ← c.toNat?; pure (.retry o c)
+  | ["cfdrop", o] => o.toNat?.map .cfdrop
+  | ["reply", o, k] => o.toNat?.map fun o => .reply o k
+  | ["replyunknown"] => some .replyUnknown
+  | ["result", o, out, dec] => o.toNat?.map fun o => .result o out dec
+  | ["requeue", o] => o.toNat?.map .requeue
+  | ["abort"] => some .abort
+  | ["wait"] => some .wait
+  | ["waitret"] => some .waitret
+  | _ => none
+
+def showTerm : TQ.Status → String
+  | .unknown => "unknown" | .incoming => "incoming" | .waiting => "waiting" | .inBatch => "inBatch"
+  | .job => "job" | .retryOut => "retryOut"
+  | .term .delivered => "delivered" | .term .noAction => "noaction" | .term .errored => "errored"
+
+def tqTrace : List String → String
+  | ["trace", n, bs, mr, ws] =>
+    match n.toNat?, bs.toNat?, mr.toNat?, (if ws == "" then some [] else (ws.splitOn ",").mapM parseTW) with
+    | some n, some bs, some mr, some words =>
+      -- `cap` is not validated here (the trace point sits before the possibly blocking send): liveness of Add is the watchdog's
+      let s0 : TQ.State := { cap := 1000000, batchSize := bs, maxRetries := mr }
+      match TQ.vrun s0 words 0 with
+      | .error e => s!"stuck {e}"
+      | .ok s =>
+        let counts := (List.range n).map fun o => toString (s.delivered.count o)
+        let terms := (List.range n).map fun o => showTerm (s.st o)
+        s!"ok delivered={String.intercalate "/" counts} term={String.intercalate "/" terms} counter={s.counter} aborted={s.aborted}"
+    | _, _, _, _ => "bad-op"
+  | _ => "bad-op"
+
+def c15 : List String → String
+  | ["delay", count, mx] =>
+    match count.toNat?, mx.toNat? with
+    | some c, some m => s!"delay {Backoff.delayMs 250 (1000 * m) c}"
+    | _, _ => "bad-op"
+  | _ => "bad-op"
+
 def answer (line : String) : String :=
   match line.splitOn " " with
   | "C07" :: rest => c07 rest
@@ -217,6 +262,8 @@ def answer (line : String) : String :=
   | "C11" :: rest => c11 rest
   | "C10" :: rest => c10 rest
   | "C02" :: rest => c02 rest
+  | "TQ" :: rest => tqTrace rest
+  | "C15" :: rest => c15 rest
   | _ => "bad-op"
 
 partial def loop (h : IO.FS.Stream) (out : IO.FS.Stream) : IO Unit := do
